@@ -21,7 +21,7 @@ MCSpec == Init /\ [][MCNext]_vars
 MCNextLocks == NextWithLocks(Batches, SUBSET Keys, {{}, Keys} \cup {{k} : k \in Keys}, {Keys, {"k1"}, {"k3", "k2"}}, MCSrc,
                              {"NO", "YES", "AUTO"}, {"NO", "YES", "KEEP", "AUTO"}, TRUE)
 MCSpecLocks == Init /\ [][MCNextLocks]_vars
-MCViewLocks == <<core, locked>>
+MCViewLocks == <<core, locked, tmpleft>>
 Depth == TLCGet("level") <= MaxDepth
 MCView == core
 =============================================================================
